@@ -158,6 +158,32 @@ impl Rng {
     pub fn bytes(&mut self, n: usize) -> Vec<u8> { (0..n).map(|_| self.next() as u8).collect() }
 }
 
+/// A reader over a byte slice that honours the `Read` contract in the least convenient way: every `read`
+/// delivers between 1 and 7 bytes (seeded), however large the buffer.  What a decoder returns must not depend
+/// on how its reader chunks the bytes (the transport dimension of Wire.tla: ChunkInvariance).
+pub struct Dribble<'a> { data: &'a [u8], pos: u64, state: Rng }
+impl<'a> Dribble<'a> {
+    pub fn new(data: &'a [u8]) -> Dribble<'a> { Dribble { data, pos: 0, state: Rng::new(fnv(&data[..data.len().min(64)]) ^ data.len() as u64) } }
+    pub fn position(&self) -> u64 { self.pos }
+}
+impl<'a> std::io::Read for Dribble<'a> {
+    fn read(&mut self, buf: &mut [u8]) -> std::io::Result<usize> {
+        let start = (self.pos as usize).min(self.data.len());
+        let n = buf.len().min(self.data.len() - start).min(1 + self.state.below(7) as usize);
+        buf[..n].copy_from_slice(&self.data[start..start + n]);
+        self.pos += n as u64;
+        Ok(n)
+    }
+}
+impl<'a> std::io::Seek for Dribble<'a> {
+    fn seek(&mut self, to: std::io::SeekFrom) -> std::io::Result<u64> {
+        let (base, off) = match to { std::io::SeekFrom::Start(n) => { self.pos = n; return Ok(n) } std::io::SeekFrom::End(o) => (self.data.len() as u64, o), std::io::SeekFrom::Current(o) => (self.pos, o) };
+        match base.checked_add_signed(off) { Some(n) => { self.pos = n; Ok(n) } None => Err(std::io::Error::new(std::io::ErrorKind::InvalidInput, "seek before start")) }
+    }
+}
+/// Half of the inputs (by content hash) go through the dribbling reader.
+pub fn dribbled(bytes: &[u8]) -> bool { (fnv(bytes) >> 7) % 2 == 1 }
+
 pub fn fnv(bytes: &[u8]) -> u64 {
     let mut h: u64 = 0xcbf29ce484222325;
     for b in bytes {
